@@ -1,6 +1,9 @@
 #!/bin/bash
+# VARIANTS: see below
 # usage: agent_prompt.sh <ID>  -> prints the prompt for a seeded-change sub-agent (property text only)
 id=$1
+# optional: two variant letters (default a b), e.g. agent_prompt.sh C03 c d
+x=${2:-a}; y=${3:-b}
 dir=/tmp/wt/$id
 prop=$(jq -r --arg id "$id" 'select(.id==$id) | "Title: \(.title)\n\nStatement: \(.statement)\n\nQuantified over: \(.quantifier.text)"' /verif/properties.jsonl)
 cat <<EOT
@@ -10,13 +13,13 @@ Here is a semantic property that the library is supposed to satisfy:
 
 $prop
 
-Your task: produce TWO independent, realistic changes (call them "a" and "b") to the library source code (under avro/src or avro_derive/src; NOT to tests) each of which BREAKS this property while
+Your task: produce TWO independent, realistic changes (call them "$x" and "$y") to the library source code (under avro/src or avro_derive/src; NOT to tests) each of which BREAKS this property while
  (1) the workspace still compiles,
  (2) the existing test suite still passes completely: run \`cd $dir && CARGO_NET_OFFLINE=true cargo test --workspace --offline -j 4 2>&1 | grep -E "^test result|FAILED|failed|error" \` and confirm there are no failures (doc tests included),
  (3) the breakage needs something SPECIFIC to manifest - a particular multi-step sequence of operations, a fault or short write at a particular point, an unusual input value or schema shape, a boundary value, or two cooperating code sites that each look fine alone - NOT something ordinary use would expose at once. It should look like a plausible refactoring / optimisation / bug-fix mistake a maintainer could make, not sabotage.
 The two changes should touch different mechanisms/code sites.
 
-For each change X in {a,b} provide in $dir/SEEDED/X/:
+For each change X in {$x,$y} provide in $dir/SEEDED/X/:
   - patch.diff : \`git diff\` of the library source change only (must apply to a clean checkout with \`git apply\`)
   - demo.rs    : a standalone Rust integration test file (to be dropped into avro/tests/demo_seeded.rs; it may use the features/dev-dependencies the avro crate already has) that FAILS with the change applied and PASSES on the unchanged tree. Verify both yourself.
   - notes.md   : which part of the property it breaks, exactly what it needs in order to manifest, the commands you ran and their results (test suite pass with change; demo fail with change; demo pass without change).
